@@ -57,6 +57,7 @@ type Scn struct {
 	Script     []int  `json:"script,omitempty"`
 	Chunk      []int  `json:"chunk,omitempty"`
 	Variant    string `json:"variant,omitempty"`
+	DiskSrc    bool   `json:"disksrc,omitempty"` // source is fsutil.NewFS over a real directory
 }
 
 func (sc Scn) String() string {
@@ -70,8 +71,14 @@ func (sc Scn) String() string {
 	if len(sc.Script) > 0 {
 		s += fmt.Sprintf(" script=%v", sc.Script)
 	}
+	if len(sc.Chunk) > 0 {
+		s += fmt.Sprintf(" chunk=%v", sc.Chunk)
+	}
 	if sc.Variant != "" {
 		s += " " + sc.Variant
+	}
+	if sc.DiskSrc {
+		s += " disk-source"
 	}
 	return s
 }
@@ -87,6 +94,7 @@ type XferRes struct {
 	Log                []string
 	Stuck              bool // something was blocked before the stream was torn down
 	Hang               bool // still blocked after forced teardown
+	HangWho            string
 	Overlaps           []string
 	FinToS             bool
 	ProgressBad        string
@@ -131,7 +139,7 @@ func errstr(err error) string {
 }
 
 // xferBody builds the body of a plain Send<->Receive scenario.
-func xferBody(sc Scn, src fsmodel.Tree, destDir string, res *XferRes) Body {
+func xferBody(sc Scn, src fsmodel.Tree, srcDir, destDir string, res *XferRes) Body {
 	return func(t *testing.T, s *Stepper, x *Exec) {
 		link := netsim.NewLink(sc.Cap)
 		sctx, scancel := context.WithCancel(context.Background())
@@ -218,9 +226,18 @@ func xferBody(sc Scn, src fsmodel.Tree, destDir string, res *XferRes) Body {
 				}
 			}()
 		}
+		var srcFS fsutil.FS = mfs
+		if sc.DiskSrc {
+			dfs, err := fsutil.NewFS(srcDir)
+			if err != nil {
+				x.Panic = "NewFS: " + err.Error()
+				return
+			}
+			srcFS = dfs
+		}
 		go func() {
 			vrt.Gate("start S", nil)
-			err := fsutil.Send(sctx, sEnd, mfs, progress)
+			err := fsutil.Send(sctx, sEnd, srcFS, progress)
 			res.SendErr, res.SendDone = errstr(err), true
 			sEnd.Returned()
 		}()
@@ -276,6 +293,12 @@ func xferBody(sc Scn, src fsmodel.Tree, destDir string, res *XferRes) Body {
 				continue
 			}
 			res.Hang = true
+			if !res.SendDone {
+				res.HangWho += "send"
+			}
+			if !res.RecvDone {
+				res.HangWho += "recv"
+			}
 			res.Parked = s.Ctl.Parked()
 			// let whatever can still finish, finish, so the process stays usable
 			scancel()
